@@ -8,11 +8,14 @@
 mod engines {
 	pub mod chunker;
 	pub mod output;
+	pub mod cli;
 	pub mod encoding;
+	pub mod faults;
 	pub mod transcode;
 	pub mod input;
 	pub mod json;
 	pub mod tomlorder;
+	pub mod msgpack;
 }
 mod props {
 	pub mod c01;
@@ -26,6 +29,11 @@ mod props {
 	pub mod c07;
 	pub mod c11;
 	pub mod c09;
+	pub mod c18;
+	pub mod c13;
+	pub mod c14;
+	pub mod c15;
+	pub mod c16;
 }
 mod corpus;
 mod gen;
@@ -38,6 +46,17 @@ use out::Out;
 use util::Rng;
 
 fn main() {
+	// Deeply nested inputs are translated in-process: give the worker the
+	// stack of a generous main thread (the real binaries are run separately
+	// on their default stacks by the C18 statements).
+	let worker = std::thread::Builder::new().stack_size(1 << 30).spawn(real_main).expect("spawn worker");
+	match worker.join() {
+		Ok(()) => {}
+		Err(_) => std::process::exit(101),
+	}
+}
+
+fn real_main() {
 	let args: Vec<String> = std::env::args().collect();
 	if args.len() >= 6 && args[1] == "run" {
 		// Panics inside xt are caught per case; keep the default hook quiet.
@@ -50,22 +69,42 @@ fn main() {
 		let mut rng = Rng::new(seed);
 		match prop {
 			"C01" => {
+				engines::msgpack::run_decode(&mut out, &mut rng.fork(), thorough);
+				engines::transcode::run(&mut out, &mut rng.fork(), thorough);
 				engines::tomlorder::run(&mut out, &mut rng.fork(), thorough);
 				props::c01::run(&mut out, &mut rng.fork(), thorough);
 			}
 			"C02" => {
+				engines::msgpack::run_size(&mut out, &mut rng.fork(), thorough);
+				engines::msgpack::run_decode(&mut out, &mut rng.fork(), thorough);
+				// The correspondences of the models C02's theorems are about.
+				engines::input::run(&mut out, &mut rng.fork(), thorough);
+				engines::json::run(&mut out, &mut rng.fork(), thorough);
 				props::c02::run(&mut out, &mut rng.fork(), thorough);
 			}
 			"C04" => {
+				engines::msgpack::run_size(&mut out, &mut rng.fork(), thorough);
+				// Correspondences of the engines whose no-panic theorems C04 lists.
+				engines::input::run(&mut out, &mut rng.fork(), thorough);
+				engines::chunker::run(&mut out, &mut rng.fork(), thorough);
+				engines::transcode::run(&mut out, &mut rng.fork(), thorough);
 				props::c04::run(&mut out, &mut rng.fork(), thorough);
 			}
 			"C06" => {
+				engines::msgpack::run_decode(&mut out, &mut rng.fork(), thorough);
+				engines::json::run(&mut out, &mut rng.fork(), thorough);
+				engines::tomlorder::run(&mut out, &mut rng.fork(), thorough);
 				props::c06::run(&mut out, &mut rng.fork(), thorough);
 			}
 			"C10" => {
+				engines::msgpack::run_decode(&mut out, &mut rng.fork(), thorough);
+				engines::json::run(&mut out, &mut rng.fork(), thorough);
+				engines::input::run(&mut out, &mut rng.fork(), thorough);
 				props::c10::run(&mut out, &mut rng.fork(), thorough);
 			}
 			"C12" => {
+				engines::faults::run(&mut out, &mut rng.fork(), thorough);
+				engines::input::run(&mut out, &mut rng.fork(), thorough);
 				props::c12::run(&mut out, &mut rng.fork(), thorough);
 			}
 			"C03" => {
@@ -91,6 +130,15 @@ fn main() {
 			"JSONDEV" => {
 				engines::json::run(&mut out, &mut rng.fork(), thorough);
 			}
+			"C18" => {
+				engines::msgpack::run_size(&mut out, &mut rng.fork(), thorough);
+				engines::msgpack::run_decode(&mut out, &mut rng.fork(), thorough);
+				props::c18::run(&mut out, &mut rng.fork(), thorough);
+			}
+			"C13" => props::c13::run(&mut out, &mut rng.fork(), thorough),
+			"C14" => props::c14::run(&mut out, &mut rng.fork(), thorough),
+			"C15" => props::c15::run(&mut out, &mut rng.fork(), thorough),
+			"C16" => props::c16::run(&mut out, &mut rng.fork(), thorough),
 			_ => {
 				eprintln!("unknown property {prop}");
 				std::process::exit(3);
@@ -147,6 +195,19 @@ fn main() {
 		props::c09::probe(&util::unhex(&args[2]).expect("hex"), xtapi::Fmt::from_name(&args[3]).expect("format"), args.get(4).map(String::as_str));
 		return;
 	}
+	if args.len() >= 3 && args[1] == "debug-k4" {
+		debug_k4(&args[2]);
+		return;
+	}
 	eprintln!("usage: xtverif run <Cnn> <quick|thorough> <seed> <outdir>");
 	std::process::exit(3);
+}
+
+#[allow(dead_code)]
+pub fn debug_k4(hexs: &str) {
+	let b = util::unhex(hexs).unwrap();
+	let y = gen::read_docs(xtapi::Fmt::Msgpack, &b).unwrap();
+	println!("y        = {:?}", y[0]);
+	println!("written  = {:?}", y[0].toml_written_order());
+	println!("reorder  = {:?}", y[0].toml_reorder());
 }
